@@ -1,14 +1,14 @@
 import os
 ID = 'C07'
 LEVEL = 'proof'
-CONTRACT_MODULES = ['contracts.stats', 'contracts.evals']
-CONE = ['csep.core.poisson_evaluations._number_test_ndarray', 'csep.core.poisson_evaluations.number_test', 'csep.core.binomial_evaluations._nbd_number_test_ndarray', 'csep.core.binomial_evaluations.negative_binomial_number_test', 'csep.utils.stats.get_quantiles', 'csep.utils.stats.greater_equal_ecdf', 'csep.utils.stats.less_equal_ecdf']
-ORACLE_MODULES = ['rt.oracles_eval', 'rt.oracles_contracts']
+CONTRACT_MODULES = ['contracts.stats', 'contracts.evals', 'contracts.catforecast', 'contracts.cateval']
+CONE = ['csep.core.poisson_evaluations._number_test_ndarray', 'csep.core.poisson_evaluations.number_test', 'csep.core.binomial_evaluations._nbd_number_test_ndarray', 'csep.core.binomial_evaluations.negative_binomial_number_test', 'csep.utils.stats.get_quantiles', 'csep.utils.stats.greater_equal_ecdf', 'csep.utils.stats.less_equal_ecdf', 'csep.core.catalog_evaluations.number_test']
+ORACLE_MODULES = ['rt.oracles_eval', 'rt.oracles_contracts', 'rt.oracles_catfc']
 BOUNDED = os.path.exists(os.path.join(os.path.dirname(__file__), '..', 'rt', 'bounded_C07.py'))
 FLOAT_MODEL = 'R: obs_cnt -/+ 1e-6 is exact, floor(n - 1e-6) = n - 1 for integer n (the float error of n - 1e-6 is < 1e-10 for n <= 1e5: assumed)'
 TRUSTED = ['scipy.stats.poisson.cdf(x, mu) = F_mu(floor(x)), nbinom.cdf(x, n, p) = F_{n,p}(floor(x)), both in [0,1], 0 below 0, non-decreasing in x (assumed contract, sampled by the bounded layer against sf/cdf)', 'monotonicity of the tails in the forecast mean is a fact about the Poisson/NB families, not about code: not machine-checked', 'pyvc engine, z3 5.1']
-ASSUMPTIONS = ['observed count is an integer >= 0; forecast total > 0; NBD variance > mean', 'floats as reals', 'catalog N-test: quantiles by the C09 contracts (same cone); event_count plumbing of the catalog-based test: bounded only']
+ASSUMPTIONS = ['observed count is an integer >= 0; forecast total > 0; NBD variance > mean', 'floats as reals', 'catalog N-test: quantiles by the C09 contracts (same cone); the catalog-based number_test itself (one entry per synthetic catalog = its event count with the configured filters, observed count, quantiles from get_quantiles at the observed count) is under contract over the pass invariant (same contract as in C10)']
 EXPLANATION = 'delta1 = 1 - F(n-1) = P(N >= n), delta2 = F(n) for the Poisson and the negative-binomial law with the prescribed mean and variance (parameter identities tau(1-u)/u = mean, tau(1-u)/u^2 = var proved in NRA); delta1 + delta2 = 1 + pmf(n); both in [0,1]; the public tests pass the catalog size and the forecast total and store (delta1, delta2); empirical version by the C09 contracts'
 TECHNIQUE = 'contracts on the real functions, distribution functions uninterpreted with their algebraic facts, z3 (NRA for the NB parameters); bounded comparison with scipy sf/cdf as labelled stand-in'
-LEVEL_TEXT = 'proof of the tail-probability formulas and of the plumbing of the public number tests for all totals / counts / variances; numerical agreement with scipy and the catalog-based N-test are bounded only'
+LEVEL_TEXT = 'proof of the tail-probability formulas and of the plumbing of the public number tests for all totals / counts / variances; the catalog-based N-test as plumbing over the pass invariant and the empirical quantiles; numerical agreement with scipy is bounded only'
 LEVEL_NOTE = 'cdf contracts assumed; floats as reals; tail monotonicity in the mean not machine-checked'
